@@ -85,7 +85,7 @@ Lemma substvar_inv : forall i name p r, substvar_loop name i = Ok (p, r) -> fora
 Proof.
   induction i as [|c i IH]; intros name p r; cbn [substvar_loop]; [discriminate|].
   destruct (eqc c 0) eqn:C0; [discriminate|]. destruct (eqc c 125) eqn:C125.
-  - intros E H. inversion E; subst. constructor; cbn; auto.
+  - cbv zeta. destruct (_ || _ || _); [|discriminate]. intros E H. inversion E; subst. constructor; cbn; auto.
   - intros E H. apply (IH _ _ _ E). rewrite forallb_app, H. cbn. unfold subc. now rewrite C0, C125.
 Qed.
 
@@ -315,7 +315,7 @@ Proof.
     eapply IH; [exact E| | |exact G].
     + destruct I as [A B C D F H K]. constructor; cbn; auto.
     + intros _. apply not_dollar. now right.
-  - destruct (is_ws (peek i) || eqc (peek i) 40) eqn:HC.
+  - destruct (is_ws (peek i) || eqc (peek i) 40 || eqc (peek i) 91 || eqc (peek i) 60) eqn:HC.
     + destruct (controllers f p i) as [[p1 i1]| |] eqn:C; try discriminate.
       eapply IH; [exact E|eapply controllers_inv; eauto| |exact G].
       intros _. apply not_dollar. left. eapply controllers_stop; eauto.
@@ -323,9 +323,9 @@ Proof.
       * destruct (p_name p) eqn:Pn; inversion E; subst; [exact G|].
         apply Forall_app. split; [exact G|]. constructor; [|constructor]. left. split; [exact I|]. rewrite Pn. discriminate.
       * eapply IH; [exact E| | |exact G].
-        -- destruct I as [A B C D F H K]. apply orb_false_iff in HC as [HW H40].
+        -- destruct I as [A B C D F H K]. apply orb_false_iff in HC as [HC H60]. apply orb_false_iff in HC as [HC H91]. apply orb_false_iff in HC as [HW H40].
            constructor; cbn [add_name p_subst p_name p_arch p_archs p_ver p_stages]; auto.
-           ++ rewrite forallb_app, B. cbn. unfold namec, D4.stop3. now rewrite H58, HW, H40, St.
+           ++ rewrite forallb_app, B. cbn. unfold namec, D4.stop3. now rewrite H58, HW, H40, St, H91, H60.
            ++ intros _. destruct (p_name p) as [|c0 n0] eqn:Pn.
               ** cbn. apply J. reflexivity.
               ** cbn. apply C. discriminate.
